@@ -42,15 +42,24 @@ CHECKS = {
  "C15": ("enumx", "4 C15", "deviation-bounded enumeration of request shapes, token-endpoint answers (singles+pairs, triples thorough), key documents and store answers with recover() as oracle",
          "No case of the grammar (2980 quick / 22650 thorough) makes Process or Check panic, and every verdict is well-formed (status set, body arm consistent); follow-up requests read back whatever was stored.",
          "Grammar-bounded; coverage-guided mutation not claimed."),
+ "C16": ("schedx", "4 C16", "exhaustive schedule exploration under the cooperative scheduler built with -race: hand-offs are raw pipe syscalls invisible to the race runtime, sync.Pool's race annotations are stripped by overlay, scheduling points at every lock operation and every function entry of the repository's packages; the happens-before race detector judges every schedule",
+         "For 11 two-thread scenarios (17 more in thorough, incl. three threads and lock-only points with 3 pre-emptions) over one shared Config/TLS pool/JWKS provider/store factory - statically configured and discovered endpoints, client-secret rotation, CA rotation, JWKS fetcher first use, Redis - no schedule within the bound produces a data race whose access site is repository code, a deadlock or a panic, except the listed known findings.",
+         "2-3 threads within a pre-emption bound instead of many goroutines on 16 cores; Redis scenarios blinded by ioSync; service start-up is ordered before the first check."),
  "C17": ("enumx", "4 C17", "deviation-bounded enumeration of configuration documents (singles+pairs over 3 base shapes, triples thorough, fixture member deletions) through the real loader with an independent post-condition predicate",
          "Every generated document (55k quick / 117k thorough) is either rejected with an error or yields a Config satisfying the safety predicate (resolved filters, openid scope, non-root callback, distinct logout path, client id/secret, ID-token header, endpoints or discovery, <=1 OIDC filter per chain, scalar merge = override-else-default); no panic.",
          "Repeated fields are not compared in the merge check; syntactically broken JSON is left to the decoder."),
+ "C18": ("seqx", "4 C18", "explicit-state BFS at server level (real loader, real store factory PreRun, real ExtAuthZFilter.Check, one simulated provider realm per filter over an in-memory network) plus a one-sided real-time replay",
+         "For every layout (shared memory / one Redis / two Redis x same or distinct cookie names x differing time-outs) and every history of logins and cross-filter cookie presentations (as issued, renamed, both names): a chain answers OK only for sessions created through it and forwards its own realm's tokens, redirects and token requests use its own provider and credentials, Redis TTLs follow the filter's own time-outs - except the listed known findings (shared store keyed by session id; first/last filter's time-outs).",
+         "Real clock at server level (no expiry/refresh in these histories); real-time part asserts only 'dead after 4 s for a 2 s limit' and 'alive for 3600 s'."),
  "C19": ("seqx", "4 C19", "explicit-state BFS over Secret events and Reconcile deliveries on the real SecretController (controller-runtime fake client) against a reference map",
          "For every explored history (depth 4 quick / 5 thorough over 4 Secret objects, 3 or all 28 filter-to-secret assignments) every filter's client secret equals the last non-empty value reconciled while not deleting for the Secret it references, literal filters and other namespaces' Secrets never change anything, the token endpoint sees the current value, and cross-namespace references are refused at start-up.",
          "Reconcile deliveries are explicit events; informer machinery not modelled."),
  "C20": ("enumx+seqx+schedx", "4 C20", "full product of TLS settings judged by real handshakes; BFS over CA rotation histories with a virtual ticker; exhaustive interleavings of concurrent loads and rotation",
          "108 settings combinations trust exactly the configured CA (or everything only with skip and no CA); in every rotation history (depth 5/7) every client trusts the content its watcher last saw after a tick, equal settings share one *tls.Config, tickers never outnumber watched settings; all interleavings of concurrent first loads / load vs rotation end with shared configs that follow the rotation.",
          "System roots only negatively; virtual ticker instead of randomised timing."),
+ "C06": ("enumx", "4 C06", "exhaustive attacker search: every candidate of a finite menu (math/rand seeds of the request's time bracket, PCG seeds, depth-2 derivations of public values and neighbouring ids; the whole 2^31-1 math/rand seed space in thorough) against real login redirects obtained through ExtAuthZFilter.Check",
+         "For every login redirect (12 quick / 48 thorough) no candidate of the attacker menu reproduces the session id (or state/nonce from time and neighbours only); identifiers have the documented length/alphabet and never repeat.",
+         "A finite menu decides predictability by the listed attacks only; the static 'every code path' clause is not claimed."),
  "C07": ("enumx", "4 C07", "bounded-exhaustive enumeration of rule sets x targets against a reference evaluator on the real ExtAuthZFilter.Check",
          "All rule sets of the pattern grammar (<=1/<=1 patterns per rule + pairs quick; <=2/<=2 thorough) x 84 targets: verdict equals the documented function of the path and is invariant under any ?query/#fragment tail.",
          "Alphabet of 37 patterns / 84 targets; 'randomly beyond' not claimed."),
